@@ -1461,6 +1461,40 @@ def cases(ctx):
                 ops.append([5, rng.choice([0, 2**32, s0, 1, 2**32 - 1, 2**33 + 7]), 0, name])
             ops.append([6, g.spell([]), SOA, 0])
         yield "serial", mk_case(kind, rel, origin, [setup, [0, rng.randrange(2), ops, -1]])
+    # 11. a CNAME (or RRSIG(CNAME)) stored at a delegation point evicts the NS rdataset: the node stops being a
+    #     delegation point (B-tree zone: DELEGATION flag, delegation index and the GLUE flags beneath it follow;
+    #     NS owners beneath it are exposed again), in the transaction that stored the NS, in a later one, in one
+    #     that aborts; owner spelled in another case; under all six configurations
+    for i in range(ctx.n(10, 90)):
+        origin = rng.choice(ORIGINS[:4])
+        g = Gen(rng, origin)
+        cut = rng.choice([[b"www"], [b"a"], [b"a"], [b"b", b"a"]])
+        below = [r for r in RELS if len(r) > len(cut) and r[len(r) - len(cut):] == cut] or [[b"x"] + cut]
+        pop = [[1, [[0, []], [2, [SOA, 0, 3600, [[1, 1]], 1]]]]]
+        for r in below:
+            pop.append([1, [[0, r], [2, g.rds(rng.choice([A, TXT]), 0, empty=0, badclass=0)]]])
+        if rng.random() < 0.4:
+            pop.append([1, [[0, below[0]], [2, g.rds(NS, 0, empty=0, badclass=0)]]])
+        put_ns = [rng.choice([1, 2]), [g.spell(cut), [2, g.rds(NS, 0, empty=0, badclass=0)]]]
+        if rng.random() < 0.5:
+            pop.append(put_ns)
+            put_ns = None
+        ev = (CNAME, 0) if i % 3 else (RRSIG, CNAME)
+        evict = [rng.choice([1, 2]), [[0, flipcase(cut)] if i % 2 else g.spell(cut), [2, g.rds(ev[0], ev[1], empty=0, badclass=0)]]]
+        look = [[10, [0, g.spell(cut, rng.randrange(2))[1]]], [6, g.spell(rng.choice(below)), A, 0], [9]]
+        body = ([put_ns] if put_ns else []) + look[:1] + [evict] + look
+        back = [0, 1, [[rng.choice([1, 2]), [g.spell(cut), [2, g.rds(NS, 0, empty=0, badclass=0)]]]] + look
+                      + [[3, [g.spell(cut), [4, rng.choice([NS, CNAME])]]]] + look[1:], -1]
+        hist = [[0, 1, pop, -1]]
+        if i % 4 == 1:
+            hist.append([0, 1, body, len(body)])                 # evicted in a transaction that dies
+        hist += [[0, rng.randrange(2), body + ([[11]] if rng.random() < 0.3 else []), -1], back]
+        base = mk_case(0, 1, origin, hist)
+        for kind in ([2, 2, 0, 1] if ctx.tier == "quick" else [0, 1, 2]):
+            for rel in range(2):
+                if ctx.tier == "quick" and kind != 2 and rel != i % 2:
+                    continue
+                yield "evict", reform_case(base, kind, rel, rng.randrange(4))
 
 
 # ------------------------------------------------------------------ exhaustive small scope (implementation vs reference)
